@@ -330,10 +330,14 @@ func (s *state[C]) account(c C, source string) {
 		s.ntSeen++
 		n := s.ntSeen
 		if (n == 1 || n == 7 || n == 50 || n == 400 || n == 3000 || n == 20000) && len(p.Samples) < 8 {
-			p.Samples = append(p.Samples, map[string]any{
-				"check": s.ck.Name, "source": source, "case": json.RawMessage(caseJSON(c)),
-				"labels": append([]string(nil), s.r.labels...),
-			})
+			if cj := caseJSON(c); len(cj) <= 4000 { // very large cases are not written into the evidence file
+				p.Samples = append(p.Samples, map[string]any{
+					"check": s.ck.Name, "source": source, "case": json.RawMessage(cj),
+					"labels": append([]string(nil), s.r.labels...),
+				})
+			} else {
+				s.ntSeen--
+			}
 		}
 	}
 }
@@ -357,7 +361,11 @@ func firstLines(s string, n int) string {
 	if len(lines) > n {
 		lines = lines[:n]
 	}
-	return strings.Join(lines, "\n")
+	out := strings.Join(lines, "\n")
+	if len(out) > 3000 {
+		out = out[:3000] + " ... (truncated)"
+	}
+	return out
 }
 
 func (ck *Check[C]) newState(m *Main) *state[C] {
